@@ -136,7 +136,9 @@ def check(report, tier, only=None):
     from props import C03 as _C03
     # every established connection - whichever side dialed, whatever is already registered - is handed to add(): the tie-break alone decides which
     # of two connections survives (a shortcut that drops a finished dial because "we are already connected" makes the two sides keep different ones)
-    for f in (ob_compose, ob_late_exit, C04.ob_add, lambda rep: handler.ob_add_peer(rep, 'C05'), lambda rep: handler.ob_handler_tail(rep, 'C05'), _C03.ob_connecting_result):
+    for f in (ob_compose, ob_late_exit, C04.ob_add, lambda rep: handler.ob_add_peer(rep, 'C05'), lambda rep: handler.ob_handler_tail(rep, 'C05'), _C03.ob_connecting_result,
+              # nothing in front of the tie-break decides which connection survives (wrapper = lock + delegation); the handle RPCs go through is the listed (surviving) connection
+              C04.ob_wrappers, __import__('props.C09', fromlist=['x']).ob_disconnect):
         if only and not any(s in getattr(f, '__name__', 'handler') for s in only):
             continue
         f(report)
